@@ -30,7 +30,11 @@ func (c *brotliDecompressor) Read(bytes []byte) (int, error) {
 	return c.reader.Read(bytes)
 }
 func (c *brotliDecompressor) Reset(rdr io.Reader) error {
-	return c.reader.Reset(rdr)
+	// brotli.Reader.Reset keeps input that the previous stream left unread (e.g.
+	// bytes after the end of a message), which would be decoded ahead of rdr.
+	// So start over with a new reader.
+	c.reader = brotli.NewReader(rdr)
+	return nil
 }
 func (c *brotliDecompressor) Close() error {
 	// brotli's Reader does not expose a Close function
